@@ -199,6 +199,27 @@ func init() {
 		for _, kind := range []string{"tcp", "tcp+tls", "rtuovertcp", "rtu"} {
 			jobs = append(jobs, job{kind: kind, b: writeBlocked})
 		}
+		// a long valid reply trickled faster than the serial port's 10 ms poll, past the deadline
+		fastTrickle := peerBehaviour{"fast-trickle", func(w wireReq, feed func([]byte), stop <-chan struct{}, T time.Duration) {
+			good := w.frame(w.unit, w.fc, validReplyPayload(NewRng(1), w.fc, append(w.payload[:2:2], 0, 125)))
+			for i := 0; i < len(good); i++ {
+				select {
+				case <-stop:
+					return
+				case <-time.After(2 * time.Millisecond):
+				}
+				feed(good[i : i+1])
+			}
+		}}
+		for _, kind := range []string{"rtu-serial", "rtu", "rtuovertcp", "tcp"} {
+			jobs = append(jobs, job{kind: kind, b: fastTrickle, op: &Op{Name: "ReadRegisters", Addr: 3, Qty: 125}})
+		}
+		// the peer takes the request slowly (the write lasts 0.8 T) and then stays silent: one timeout
+		// for the whole exchange, not one for the write and another for the read
+		slowWrite := peerBehaviour{"slow-write-then-silence", func(w wireReq, feed func([]byte), stop <-chan struct{}, T time.Duration) {}}
+		for _, kind := range []string{"tcp", "tcp+tls"} {
+			jobs = append(jobs, job{kind: kind, b: slowWrite, T: 300 * time.Millisecond})
+		}
 		var wg sync.WaitGroup
 		sem := make(chan struct{}, 24)
 		for ji, j := range jobs {
@@ -261,6 +282,9 @@ func init() {
 						return
 					}
 					conn := &TimedConn{BlockWrites: j.b.name == "write-blocked"}
+					if j.b.name == "slow-write-then-silence" {
+						conn.WriteDelay = T * 8 / 10
+					}
 					conf := &modbus.ClientConfiguration{URL: j.kind + "://timed", Speed: speed, Timeout: T, Logger: quietLog}
 					if j.kind == "tcp+tls" {
 						conf.TLSClientCert, conf.TLSRootCAs = nil, nil
